@@ -421,4 +421,20 @@ theorem unphase_of_checked_edit (v v' : List Record) (h : editB v v' = true) : u
 example : editB [⟨["chr1"], [⟨some ⟨[some 0, some 1, some 1], false⟩, [("DP", "3")]⟩]⟩]
     [⟨["chr1"], [⟨some ⟨[some 1, some 0, some 1], true⟩, [("PS", "7"), ("DP", "3")]⟩]⟩] = true := by decide
 
+/-- **history_unphase_invariant** (the "histories" part of the quantifier): along any sequence of phase applications
+(phase-only edits) and unphase applications, unphasing the last file gives the same records as unphasing the first. -/
+theorem history_unphase_invariant {v w : List Record} (h : History v w) : unphase w = unphase v := by
+  induction h with
+  | refl v => rfl
+  | step hs _ ih =>
+    rw [ih]
+    cases hs with
+    | edit he => exact unphase_phase_eq_unphase he
+    | unphased hu => rw [hu]; exact idempotent _
+
+/-- a history with both kinds of steps: phase (alleles swapped, phased, PS added), then unphase -/
+example : ∃ v v' : List Record, v ≠ v' ∧ History v (unphase v') :=
+  ⟨[⟨["chr1"], [⟨some ⟨[some 0, some 1], false⟩, []⟩]⟩], [⟨["chr1"], [⟨some ⟨[some 1, some 0], true⟩, [("PS", "5")]⟩]⟩],
+    by decide, .step (.edit ((edit_checker_iff _ _).mp (by decide))) (.step (.unphased rfl) (.refl _))⟩
+
 end WhVerif.Props.C13
